@@ -684,6 +684,9 @@ func decodePacket(netcompat bool, buf []byte) (packet, NodeID, []byte, error) {
 	if !netcompat {
 		x = len("aqua")
 	}
+	if len(sigdata) < 1+x {
+		return nil, fromID, hash, errPacketTooSmall
+	}
 	s := rlp.NewStream(bytes.NewReader(sigdata[1+x:]), 0)
 	err = s.Decode(req)
 	return req, fromID, hash, err
